@@ -645,6 +645,27 @@ Definition tr_outcome_ok {digest : Type} (c : tr_cfg) (d : path) (f0 : fs) (ess 
     (exists L, cf_log digest cf = L ++ [(tc_upload c, TrExit digest all)]) /\   (* the names the client reports *)
     tr_shape_ok digest (tr_pipeline c) (cf_log digest cf) = true.
 
+(* ---- a sufficient condition on the inputs for the receiver to accept every entry ---- *)
+Definition tr_len_ok (n : name) : Prop := (name_max <? name_len n) = false.           (* at most NAME_MAX bytes *)
+Definition tr_comp_ok (n : name) : Prop := has_nul n = false /\ tr_len_ok n.
+Definition tr_name_fine (n : name) : Prop := valid_name n = true /\ tr_comp_ok n.     (* checkFileName accepts it *)
+(* the names of an entry are clean; JSON mode: the path is not empty; a directory only in JSON mode *)
+Definition tr_entry_clean (c : tr_cfg) (e : tr_entry) : Prop :=
+  Forall tr_name_fine (tr_key c e :: tr_tail c e) /\ (tr_json c = true -> te_rel e <> []) /\
+  (te_isdir e = true -> tr_json c = true).
+Definition tr_leaf_of (c : tr_cfg) (d : path) (e : tr_entry) : path := d ++ tr_key c e :: tr_tail c e.
+(* clean names; no two entries at one place; every entry below the top level comes after its
+   parent directory, which has the same path id; entries share a path id exactly when they share
+   the top-level name; and nothing is in the way at the destination *)
+Definition tr_ready (c : tr_cfg) (d : path) (f0 : fs) (es : list tr_entry) : Prop :=
+  Forall (tr_entry_clean c) es /\
+  NoDup (map (fun e => tr_key c e :: tr_tail c e) es) /\
+  (forall pre e post, es = pre ++ e :: post -> tr_tail c e <> [] ->
+     exists e', In e' pre /\ te_isdir e' = true /\ te_id e' = te_id e /\
+       tr_key c e' :: tr_tail c e' = removelast (tr_key c e :: tr_tail c e)) /\
+  (forall e e', In e es -> In e' es -> (te_id e = te_id e' <-> tr_key c e = tr_key c e')) /\
+  (forall e, In e es -> lookup f0 (tr_leaf_of c d e) = None).
+
 (* the escape table is absent or well-formed *)
 Definition tr_table_ok (c : tr_cfg) : Prop := tc_table c = [] \/ wf (tc_table c) = true.
 
